@@ -103,6 +103,11 @@ func runC13(c c13Case) error {
 
 func c13Gen(t *rapid.T, minLen int) c13Case {
 	nf := rapid.IntRange(1, 6).Draw(t, "nfiles")
+	many := rapid.IntRange(0, 11).Draw(t, "manyfiles") == 0
+	if many {
+		// a directory full of result files (`report results/*`): more inputs than a machine word has bits
+		nf = rapid.SampledFrom([]int{31, 32, 33, 63, 64, 65, 70, 130}).Draw(t, "nmany")
+	}
 	c := c13Case{Auto: rapid.Bool().Draw(t, "auto")}
 	if c.Auto && rapid.IntRange(0, 2).Draw(t, "behind") == 0 {
 		c.Behind = rapid.SampledFrom([]int{1, 10, 500, 5000}).Draw(t, "behindn")
@@ -117,6 +122,15 @@ func c13Gen(t *rapid.T, minLen int) c13Case {
 			n = rapid.IntRange(minLen, 3).Draw(t, fmt.Sprintf("len%d", i))
 		default:
 			n = rapid.IntRange(minLen, 14).Draw(t, fmt.Sprintf("len%d", i))
+		}
+		if many {
+			// short files, the longest ones possibly among the last few
+			if n > 2 {
+				n = 2
+			}
+			if i >= nf-3 && rapid.Bool().Draw(t, fmt.Sprintf("tail%d", i)) {
+				n = rapid.IntRange(3, 5).Draw(t, fmt.Sprintf("taillen%d", i))
+			}
 		}
 		if i > 0 && rapid.IntRange(0, 3).Draw(t, fmt.Sprintf("same%d", i)) == 0 {
 			n = len(c.Files[i-1].Results) // neighbouring files running out together
